@@ -52,7 +52,7 @@ def kids (h : Heap) (i : Id) : List Id := match h.get i with | some o => o.child
 def upd (h : Heap) (f : Obj → Obj) : Heap := h.map (Option.map f)
 /-- identities of the live objects satisfying `p`, ascending -/
 def idsWhere (h : Heap) (p : Obj → Bool) : List Id :=
-  (List.range h.length).filter fun i => match h.get i with | some o => p o | none => false
+  h.zipIdx.filterMap fun (oo, i) => match oo with | some o => if p o then some i else none | none => none
 /-- all elements of all live objects satisfying `p` (a loop over a gc list visiting every element) -/
 def edgesWhere (h : Heap) (p : Obj → Bool) : List Id :=
   h.flatMap fun oo => match oo with | some o => if p o then o.children else [] | none => []
@@ -326,6 +326,13 @@ def addRoot (s : St) (o : Id) : Option St :=
   | some _ => some { s with heap := refup s.heap o, roots := o :: s.roots }
   | none => none
 
+/-- an embedding host fetches the element `c` of container `p` (`hawk_rtx_getmapvalfld` / `hawk_rtx_getarrvalfld` /
+the map iteration API return a borrowed pointer) and takes a reference of its own to it -/
+def take (s : St) (p c : Id) : Option St :=
+  match s.heap.get p with
+  | some op => if c ∈ op.children then addRoot s c else none
+  | none => none
+
 /-- an external holder lets go -/
 def dropRoot (s : St) (o : Id) : Option St :=
   if o ∈ s.roots then some (refdown { s with roots := s.roots.erase o } o) else none
@@ -352,6 +359,7 @@ inductive Op where
   | relink (p c d : Id)
   | clear (p : Id)
   | addRoot (o : Id)
+  | take (p c : Id)
   | dropRoot (o : Id)
   | gc (gen : Int)
   | setThr (gen thr : Int)
@@ -366,6 +374,7 @@ def step (s : St) : Op → St
   | .relink p c d => (relink s p c d).getD s
   | .clear p => (clear s p).getD s
   | .addRoot o => (addRoot s o).getD s
+  | .take p c => (take s p c).getD s
   | .dropRoot o => (dropRoot s o).getD s
   | .gc g => (gc s g).1
   | .setThr g t => (setThreshold s g t).1
